@@ -1,5 +1,5 @@
 """U10 - src/ipc.rs: IpcOneShotServer::{new, accept}, IpcSender::connect (thin wrappers over the platform layer).  Verus."""
-from vf.gen import Unit, Fn, Clause, Hint, Rule, AppendArg
+from vf.gen import Unit, Fn, Clause, Hint, Rule, AppendArg, CtorClosure
 
 F = "src/ipc.rs"
 OG = "Tracked(&mut *o)"
@@ -54,6 +54,7 @@ ETA = [
     Rule("D31", r"\.map_err\(TryRecvError::IpcError\)", ".map_err(|e: IpcError| -> (x: TryRecvError) ensures x == TryRecvError::IpcError(e) { TryRecvError::IpcError(e) })",
          "eta-expansion of a datatype constructor used as a function value"),
     AppendArg("B72", r"\.to\(", OG, "OpaqueIpcMessage::to (unit U7) as a stub that records what was decoded", min_count=1),
+    CtorClosure(),
 ]
 def recv_fn(name, kind, err_wrap, props):
     return Fn(F, [RCV, name], ret="r", extra_params=TO,
